@@ -867,7 +867,7 @@ class QueryBuilder(Selectable, Term):  # type:ignore[misc]
                     field,
                     (
                         update_value
-                        if isinstance(update_value, Term)
+                        if isinstance(update_value, Node)
                         else self._wrapper_cls(update_value)
                     ),
                 )
